@@ -370,6 +370,9 @@ func RunProperty(o Options) int {
 		}
 		fmt.Printf("OK property=%s tier=%s units=%d paths=%d obligations=%d discharged=%d wall=%.1fs\n", o.Prop, o.Tier, len(reports), tp, to, td, time.Since(t0).Seconds())
 	}
+	if h := QHistString(); h != "" {
+		fmt.Print(h)
+	}
 	return exit
 }
 
